@@ -299,8 +299,17 @@ def uni_workload(kind, s_streams, variant):
     return [p0, p1] + cons
 
 
+def uniwake(kind, n=4, maxs=1, prods=2, sends=2, cancel=False):
+    return {"Kind": '"%s"' % kind, "N": n, "MaxS": maxs, "Prods": list(range(prods)), "Sends": sends, "WithCancel": cancel}
+
+
 def C01(c):
     quick = c.tier == "quick"
+    # protocol level: every interleaving of reserve / publish / wake decision with consume / keep check / waker registration
+    for kind in ("atomic", "fullsync"):
+        for n, maxs in ((2, 2), (4, 1)):
+            c.mc("UniWake", "%s_n%d_s%d" % (kind, n, maxs), uniwake(kind, n=n, maxs=maxs, prods=2, sends=2 if quick else 3), invariants=["InvCounts", "InvNoLoss"], init="Init", next_="Next",
+                 required_actions=["Reserve", "WakeDecision", "Consume", "Register"] + (["Publish"] if kind == "atomic" else []), timeout=1200, workers=8)
     checks = ["InvDeliveredAtMostOnce", "InvNoLossNoInvention", "InvRejectedSetterUninvoked", "NoPanic"]
     mr, rr = (150, 100) if quick else (3000, 2000)
     for kind in UNI_KINDS:
@@ -322,6 +331,16 @@ def by_n(scns):
 
 def C04(c):
     quick = c.tier == "quick"
+    # protocol level: the full-sync hand-shake never strands an event; the atomic one does (the recorded finding) -- both as TLC says
+    for maxs in (1, 2):
+        c.mc("UniWake", "fullsync_s%d" % maxs, uniwake("fullsync", n=4, maxs=maxs, prods=2 if quick else 3, sends=2), invariants=["InvCounts", "InvNoLostWakeup"], init="Init", next_="Next",
+             required_actions=["Reserve", "WakeDecision", "Consume", "Register", "PollStart"], timeout=1200, workers=8)
+    if kf_open("KF-C04-racing-lost-wakeup-uni-atomic"):
+        r = c.mc("UniWake", "atomic_s1_strict", uniwake("atomic", n=4, maxs=1, prods=2, sends=2), invariants=["InvNoLostWakeup"], init="Init", next_="Next", expect="kf", timeout=1200, workers=8)
+        if r["ok"]:
+            c.notes.append("the recorded finding KF-C04-racing-lost-wakeup-uni-atomic is no longer reproduced by the UniWake model")
+    else:
+        c.mc("UniWake", "atomic_s1", uniwake("atomic", n=4, maxs=1, prods=2, sends=2), invariants=["InvCounts", "InvNoLostWakeup"], init="Init", next_="Next", timeout=1200, workers=8)
     checks = ["InvNoLostWakeup"]
     mr, rr = (200, 150) if quick else (3000, 2000)
     for kind in UNI_KINDS:
@@ -362,6 +381,9 @@ def C02_channels(c):
 
 def C07(c):
     quick = c.tier == "quick"
+    for kind in ("atomic", "fullsync"):
+        c.mc("UniWake", "%s_cancel" % kind, uniwake(kind, n=4, maxs=2, prods=2, sends=1 if quick else 2, cancel=True), invariants=["InvCounts", "InvCancelEnds"], init="Init", next_="Next",
+             required_actions=["CancelStep", "KeepCheck", "Register"], timeout=1200, workers=8)
     mr, rr = (200, 120) if quick else (4000, 2500)
     checks = ["InvCancelEndsStreams", "InvDeliveredAtMostOnce", "InvRunningCount", "NoPanic"]
 
@@ -526,8 +548,20 @@ def multi_producers(kind, variant=0):
     return [p0, p1]
 
 
+def multifan(kind, churn, initial=(0, 1, 2), s_=4):
+    return {"Kind": '"%s"' % kind, "S": s_, "Initial": list(initial), "Churn": '"%s"' % churn}
+
+
+FAN_INV = ["InvThroughout", "InvNoDuplicates", "InvNoPhantomRefs"]
+
+
 def C03(c):
     quick = c.tier == "quick"
+    # protocol level: with a fixed listener set the fan-out loop serves every listener exactly once (both sender shapes)
+    for kind in ("arc", "ogre"):
+        for initial in ((0,), (0, 1, 2)):
+            c.mc("MC_MultiFan", "%s_static_%d" % (kind, len(initial)), multifan(kind, "none", initial), subst={"Events": "Ev3"}, invariants=FAN_INV, init="Init", next_="Next",
+                 required_actions=["SendStart", "SendVisit", "SendEnd"], timeout=600, workers=6)
     mr, rr = (150, 100) if quick else (3000, 2000)
 
     def build(kind):
@@ -609,6 +643,15 @@ def C10(c):
 
 def C17(c):
     quick = c.tier == "quick"
+    # protocol level: the in-place list rebuild under a running sender (the recorded finding), and the one combination that is safe
+    c.mc("MC_MultiFan", "arc_add", multifan("arc", "add"), subst={"Events": "Ev2"}, invariants=FAN_INV, init="Init", next_="Next", required_actions=["SendVisit", "ChurnStart", "SyncWrite"], timeout=600, workers=6)
+    for kind, churn in (("arc", "remove"), ("ogre", "add"), ("ogre", "remove")):
+        if kf_open("KF-C17-listener-list-rewritten-under-senders"):
+            r = c.mc("MC_MultiFan", "%s_%s_strict" % (kind, churn), multifan(kind, churn), subst={"Events": "Ev2"}, invariants=FAN_INV, init="Init", next_="Next", expect="kf", timeout=600, workers=6)
+            if r["ok"]:
+                c.notes.append("the recorded finding KF-C17 is no longer reproduced by the MultiFan model (%s, %s)" % (kind, churn))
+        else:
+            c.mc("MC_MultiFan", "%s_%s" % (kind, churn), multifan(kind, churn), subst={"Events": "Ev2"}, invariants=FAN_INV, init="Init", next_="Next", timeout=600, workers=6)
     mr, rr = (200, 150) if quick else (4000, 3000)
     checks = ["InvNoUseAfterFree"] + MULTI_DELIVERY + ["InvCapacityRestored", "InvDestroyedAtMostOnce"]
 
@@ -673,6 +716,10 @@ def C07_multi(c):
 
 def C09(c):
     quick = c.tier == "quick"
+    # design level: every interleaving of two publishers (fetch_add / fill / in-order CAS) with late subscriptions of every kind and
+    # listeners consuming at their own pace
+    c.mc("MmapLog", "2p2_2subs" if quick else "2p2_3subs", {"Pubs": [0, 1], "PerPub": 2, "Subs": [0, 1] if quick else [0, 1, 2]}, init="Init", next_="Next", deadlock=False,
+         invariants=["InvPublishedOnly", "InvOneOrder", "InvProducerOrder", "InvSplit", "InvTails"], required_actions=["PubFA", "PubCAS", "Subscribe", "SubLoad", "SubRecede"], timeout=3000, workers=10)
     mr, rr = (250, 200) if quick else (5000, 4000)
     checks = MULTI_DELIVERY + ["InvSameTotalOrder", "InvSplitPartitions"]
 
